@@ -373,6 +373,15 @@ def run_direct(desc):
                 after = f(cur, tree)
             except Exception as e:
                 cov[f"filter_raised.{type(f).__name__}.{type(e).__name__}"] += 1
+                # a filter is a function from candidate sets to candidate sets: on a well-formed tree and well-formed candidates it
+                # has to answer (possibly with nothing), not raise
+                occ_ = [sum(1 for d_ in lvl if d_.is_active) for lvl in tree.levels]
+                n_per_level = {lv_: sum(len(i_) for d_, i_ in before.items() if d_.level == lv_) for lv_ in range(len(tree.levels) - 1)}
+                empty_full = type(f).__name__ == "LevelLimit" and any(n_per_level.get(lv_, 0) == 0 and occ_[lv_ + 1] > f.limit for lv_ in range(len(tree.levels) - 1))
+                viol(
+                    f"{type(f).__name__}: raised {type(e).__name__} instead of returning candidates" + (" (no candidates for a level that holds more active demes than the limit)" if empty_full else ""),
+                    active_per_level=occ_, candidates_per_level=n_per_level, limit=getattr(f, "limit", None), error=repr(e)[:120],
+                )
                 break
             cov["filter_applications"] += 1
             if check_filter(f, before, after, tree, maximize, viol, cov):
@@ -395,6 +404,7 @@ def run_direct(desc):
                             viol("SproutMechanism.get_seeds returns a seed that is not in the parent's current population", deme=d.id)
             except Exception as e:
                 cov[f"mechanism_raised.{type(e).__name__}"] += 1
+                viol(f"SproutMechanism.get_seeds raised {type(e).__name__} on a well-formed tree", error=repr(e)[:120], active_per_level=[sum(1 for d_ in lvl if d_.is_active) for lvl in tree.levels])
     res["violations"] = ctx.violations
     res["nontrivial"] = nontrivial
     res["sample"]["synthetic"] = {"levels": [len(lvl) for lvl in tree.levels], "active": [sum(1 for d in lvl if d.is_active) for lvl in tree.levels], "maximize": maximize}
